@@ -142,7 +142,7 @@ PROPS['C06'] = dict(
     technique='function contracts discharged by Verus on mechanically extracted text (unbounded) + bounded Kani contract harnesses on the real crate (cross-check of the assumed container contracts, counterexample replay)',
     design_ref='DESIGN.md section 4, C06; 9.1b',
     explanation='OneShotState::{handle_press, handle_release, tick_osh}: postconditions taken from the property statement (press variants end within the rapid-event delay; release variants end on the release of the first following key; pcancel on re-press of an active one-shot key; a held one-shot key acts as the plain key (its deferred release is forgotten on re-press); expiry exactly when the last millisecond elapses or an end was requested, and it clears everything so nothing later is affected; the 17th deferred release evicts the oldest instead of being lost). All three are proved UNBOUNDED by Verus (unit oneshot) against the assumed ArrayDeque(Wrapping)/heapless contract; the closure passed to retain() is annotated mechanically (R12: its ensures clause is generated from its own body text, so a changed predicate changes the spec it is checked with). do_action_one_shot (unit waiting; FRAGMENT: the OneShot arm of Layout::do_action): the inner action runs exactly once, flagged as a one-shot activation; then the key joins the active table (keys tapped in a row combine), the timeout restarts with this key\'s value, its end variant governs; with 16 already active the oldest is released through Layout::event, not dropped. handle_press is an assumed stub there (proved in unit oneshot).',
-    verus=[dict(unit='oneshot'), dict(unit='waiting', only=['do_action_one_shot'])],
+    verus=[dict(unit='oneshot'), dict(unit='waiting', only=['do_action_one_shot']), dict(unit='layers', only=['do_action_key_code_head', 'do_action_layer', 'do_action_default_layer'])],
     kani=[
         H('keyberon', 'layout', 'c06_b_press_other', kind='bounded', bound='each table <= 3 coordinates', functions=[L + 'OneShotState::handle_press']),
         H('keyberon', 'layout', 'c06_b_press_oneshot_key', kind='bounded', bound='each table <= 3 coordinates'),
@@ -153,7 +153,7 @@ PROPS['C06'] = dict(
         H('keyberon', 'layout', 'c06_b_press_other_neg', kind='bounded', expect='fail', covers='must-fail twin'),
     ],
     assumptions=[
-        'call sites: the OneShot arm of Layout::do_action is under contract as a fragment (unit waiting; do_action / Layout::event stubbed with ghost logs); handle_press(Other) on every non-one-shot action and the deferred release in Layout::dequeue are NOT under contract',
+        'call sites: the OneShot arm of Layout::do_action is under contract as a fragment (unit waiting; do_action / Layout::event stubbed with ghost logs); handle_press(Other(coord)) unless is_oneshot is proved for the KeyCode (head), Layer and DefaultLayer arms (unit layers) and for macro presses (unit seqs), NOT for the other arms of do_action; the deferred release in Layout::dequeue is NOT under contract',
         'Verus: arraydeque::ArrayDeque<_, N, Wrapping>::{new,is_empty,contains,push_back,iter,extend,clear,drain(..),retain} and heapless::Vec FromIterator, core::cmp::min/max at u16: ASSUMED contracts in contracts/oneshot.spec.rs (retain: predicate called once per element front to back; extend/push_back on a full deque keep the newest N; a deque never exceeds N)',
         'Kani: tables with more than 3 entries are covered only by the overflow harness (bounded cross-check; the real arraydeque 0.5.1 / heapless 0.7 are compiled and symbolically executed there, not assumed)',
     ],
@@ -314,7 +314,7 @@ PROPS['C02'] = dict(
     technique='contract-based: Verus (overflow/bounds/unwrap/assert sites as obligations) + Kani default checks on the harnesses of C03 C05 C06 C09 C10 C11 C17',
     design_ref='DESIGN.md section 4, C02',
     explanation='union of panic-freedom obligations of every function under contract; the quick tier leaves out only the harnesses that are thorough-tier in their own property and the full-domain key table harness',
-    verus=[dict(unit='dynmacro', only=DYN_FUNCS), dict(unit='switch'), dict(unit='oneshot'), dict(unit='waiting'), dict(unit='ticks'), dict(unit='repeat'), dict(unit='seqs')],
+    verus=[dict(unit='dynmacro', only=DYN_FUNCS), dict(unit='switch'), dict(unit='oneshot'), dict(unit='waiting'), dict(unit='ticks'), dict(unit='repeat'), dict(unit='seqs'), dict(unit='layers')],
     kani=_c02_kani(),
     assumptions=[
         'NOT covered: Layout::{tick, do_action, event} outside the fragments named above, resolve_coord, process_sequences, ChordsV2::process_presses, every Kanata method except handle_repeat_actual and handle_scrolling (handle_move_mouse uses f64; tick_sequence_state returns a &mut from a getter), the parser',
@@ -388,6 +388,36 @@ PROPS['C08'] = dict(
         'a macro whose event list does not release what it pressed leaves that fake key down when it ends: "always end with keys released" is a property of the parser\'s expansion (not under contract) except for cancellation, which is proved to release every fake key',
         'the state table holds 64 entries: a Press / Custom beyond that is silently dropped by the code (`let _ = self.states.push(..)`); the contract says so (spec fn pushed)',
         'assumed container contracts as listed in level_note; History / OneShotState are opaque with ghost logs (what they do with a call is C10 / C06)',
+    ],
+    trusted_base=['rustc', 'Verus 0.2026.09.13 / Z3', 'extractor lib/rustcut.py + lib/verusgen.py (rewrites logged in rewrites_applied)'],
+)
+
+
+PROPS['C04'] = dict(
+    level='proof',
+    level_text=('PARTIAL: unbounded deductive proofs (Verus/Z3) of the per-call mechanics the layered-keymap model rests on, on text cut from keyberon/src/layout.rs each run: '
+                '(1) THE SEARCH - Layout::resolve_coord returns, for a coordinate and a layer order, the first non-transparent entry along that order, else the defsrc key of the column '
+                '(row 0) or nothing (other rows); (2) WHAT A PRESS RECORDS - the KeyCode arm of do_action (its head) pushes a key state AT THE PRESSED COORDINATE, the Layer arm a layer state at the '
+                'coordinate, the DefaultLayer arm / set_default_layer switch the base layer only to a layer that exists; (3) RELEASE BY COORDINATE - State::release ends a state iff it was created '
+                'at the released coordinate, whatever the layers are by then, and reports a custom action\'s release. NOT decided: the construction of the search order '
+                '(trans_resolution_layer_order / current_layer / active_held_layers: iterator chains with closures), the release loop in dequeue (a retain closure mutating a captured event), '
+                'one-event-per-tick FIFO order of Layout::tick as a whole, and the Kanata-side emission (diff of key lists) - so the trace equivalence with the model is NOT established, only its per-call ingredients.'),
+    level_note=('Trusted: rustc, Verus+Z3, extractor. Rewrites: R5 (the layer-order iterator parameter of resolve_coord becomes the vector of layer numbers it yields), R10, R24 (`continue` as the last statement of the loop body -> `{}`), '
+                'R23 (a match arm `P1 | P2 | P3 if G => B` is distributed into one guarded arm per alternative: this Verus rejects or-pattern + guard), fragment `until` (the KeyCode arm is cut before its repeat-buffer tail, which is `unsafe` + closures). '
+                'Assumed stubs: heapless::Vec::push, History::push_front, OneShotState::handle_press (proved in unit oneshot), LastPressTracker::update_coord (proved in unit waiting).'),
+    technique='contract-based deductive verification (Verus): ensures over a recursive spec function (resolved), loop invariant, contracts on State helpers, ghost logs',
+    design_ref='DESIGN.md section 9.1b (C04)',
+    explanation=('Unit layers. resolve_coord: *r == resolved(layers, src_keys, x, y, order, 0) under x < R, y < C, order names existing layers; State::{coord, keycode, get_layer, release}; CustomEvent::update; '
+                 'set_default_layer; do_action_key_code_head / do_action_layer / do_action_default_layer: states\' == pushed(states, NormalKey{keycode, coord, flags 0} | LayerModifier{value, coord}), '
+                 'one-shot logic told Other(coord) unless is_oneshot, base layer changed only by DefaultLayer and only to an existing layer.'),
+    verus=[dict(unit='layers')],
+    kani=[],
+    assumptions=[
+        'NOT decided: which order is handed to resolve_coord (held layers newest first, base layer, optional layer 0): trans_resolution_layer_order / current_layer / active_held_layers are iterator chains with closures, outside Verus; Kani on a Layout instance was measured infeasible (DESIGN 2)',
+        'NOT decided: Layout::dequeue Release arm (retain closure that mutates a captured CustomEvent), Layout::tick as a whole (one event per tick, FIFO), Layout::event, the rest of do_action (MultipleKeyCodes, multi, release-key/layer), Kanata::handle_keystate_changes (ordered, de-duplicated emission), the parser\'s layer table construction',
+        'resolve_coord preconditions (coordinate inside the table, order names existing layers) are not established by a caller under contract; the function\'s own asserts use `<=` and would let an index equal to the length through (observation, see C02)',
+        'State::release: the frame "a state that is not the released custom action leaves the pending event unchanged" is true by inspection but not claimed: this Verus loses it across guarded arms when one arm mutates a &mut parameter (minimal reproduction in DESIGN 9.3)',
+        'the state table holds 64 entries: a press beyond that records nothing (`let _ = self.states.push(..)`); the contract says so (spec fn pushed)',
     ],
     trusted_base=['rustc', 'Verus 0.2026.09.13 / Z3', 'extractor lib/rustcut.py + lib/verusgen.py (rewrites logged in rewrites_applied)'],
 )
